@@ -447,6 +447,20 @@ func (g *routerGen) perturb(p string) string {
 			return u // the decoded spelling is another path: "/a b" is not the static route "/a%20b"
 		}
 	}
+	if rng.Intn(12) == 0 { // the same path with one letter in the other case is another path
+		b := []byte(p)
+		for try := 0; try < 8 && len(b) > 0; try++ {
+			i := rng.Intn(len(b))
+			if b[i] >= 'a' && b[i] <= 'z' {
+				b[i] -= 32
+				return string(b)
+			}
+			if b[i] >= 'A' && b[i] <= 'Z' {
+				b[i] += 32
+				return string(b)
+			}
+		}
+	}
 	switch rng.Intn(8) {
 	case 0:
 		return p + "/"
@@ -559,6 +573,10 @@ func (g *routerGen) reqHeaders() []*Sx {
 			val := []string{"v", "", "12", "a", "ab", "xvx", "b", " v", "ab ", " ", "\t12"}[rng.Intn(11)] // blanks are part of the value
 			if rng.Intn(25) == 0 {
 				val = strings.Repeat("z", 1030) + val // a long value is matched whole
+			}
+			if rng.Intn(8) == 0 { // the header sent twice: the first value counts
+				out = append(out, T("h", X(n), X(val), X([]string{"v", "12", "ab", "zz"}[rng.Intn(4)])))
+				continue
 			}
 			out = append(out, T("h", X(n), X(val)))
 		} else if rng.Intn(12) == 0 {
@@ -922,6 +940,9 @@ func runRouter(in *Sx) *Sx {
 						hdr[http.CanonicalHeaderKey(h.Args()[0].Bytes())] = []string{}
 					} else {
 						hdr.Set(h.Args()[0].Bytes(), h.Args()[1].Bytes())
+						for _, more := range h.Args()[2:] {
+							hdr.Add(h.Args()[0].Bytes(), more.Bytes())
+						}
 					}
 				}
 				req := &http.Request{Method: a[0].Bytes(), URL: &url.URL{Path: a[1].Bytes()}, Header: hdr, Proto: "HTTP/1.1", Host: "example.com"}
@@ -999,6 +1020,9 @@ func genC12(rng *rand.Rand, n int, tier string, emit func(*Sx)) {
 			if rng.Intn(4) != 0 {
 				nm := names[rng.Intn(len(names))]
 				ops = append(ops, T("name", I(k), X(nm)))
+				if rng.Intn(4) == 0 {
+					ops = append(ops, T("name", I(k), X(nm))) // the same route under the same name again: the name is taken
+				}
 				named = append(named, nm)
 				namedRoute = append(namedRoute, r)
 			}
@@ -1019,7 +1043,7 @@ func genC12(rng *rand.Rand, n int, tier string, emit func(*Sx)) {
 			}
 			return out
 		}
-		vals := []string{"", "v", "{x}", "{y}", "/", "{", "}", "{id}x", "a}{b", "7", "a/b", "%41", "x y"}
+		vals := []string{"", "v", "{x}", "{y}", "/", "{", "}", "{id}x", "a}{b", "7", "a/b", "%41", "x y", "why?", "a#b"}
 		for q := 2 + rng.Intn(6); q > 0; q-- {
 			r := routes[rng.Intn(len(routes))]
 			nm := names[rng.Intn(len(names))]
